@@ -471,6 +471,18 @@ func init() {
 		get("GetVestingQueuesByAuctionId", "vesting.go", []gparam{{Go: "auctionId", T: "Int"}}, []LT{"List VQ", "Err"},
 			map[string]callSpec{"k.VestingQueue.Walk": {Walk: "(GStore.allVqs %s)", WalkPrefix: "(GStore.vqsOf %s %p)", Value: V{T: "List VQ"}}},
 			map[string]LT{"types.VestingQueue": "VQ"}),
+		get("Auctions", "auction.go", nil, []LT{"List Auction", "Err"},
+			map[string]callSpec{"k.IterateAuctions": {Walk: "(GStore.allAuctions %s)", Value: V{T: "List Auction"}}},
+			map[string]LT{"types.AuctionI": "Auction"}),
+		get("Bids", "bid.go", nil, []LT{"List Bid", "Err"},
+			map[string]callSpec{"k.IterateBids": {Walk: "(GStore.allBids %s)", Value: V{T: "List Bid"}}},
+			map[string]LT{"types.Bid": "Bid"}),
+		get("VestingQueues", "vesting.go", nil, []LT{"List VQ", "Err"},
+			map[string]callSpec{"k.IterateVestingQueues": {Walk: "(GStore.allVqs %s)", Value: V{T: "List VQ"}}},
+			map[string]LT{"types.VestingQueue": "VQ"}),
+		get("AllowedBidders", "allowed_bidder.go", nil, []LT{"List AllowedArg", "Err"},
+			map[string]callSpec{"k.IterateAllowedBidders": {Walk: "(GStore.allAllowed %s)", Value: V{T: "List AllowedArg"}}},
+			map[string]LT{"types.AllowedBidder": "AllowedArg"}),
 		get("GetAllowedBiddersByAuction", "allowed_bidder.go", []gparam{{Go: "auctionId", T: "Int"}}, []LT{"List Allowed", "Err"},
 			map[string]callSpec{"k.AllowedBidder.Walk": {Walk: "(GStore.allAllowedRec %s)", WalkPrefix: "(GStore.allowedOf %s %p)", Value: V{T: "List Allowed"}}},
 			map[string]LT{"types.AllowedBidder": "Allowed"}),
